@@ -66,19 +66,25 @@ def pairwiseSep (sep : Rat → Rat) : List Rat → Bool
   | [] => true
   | a :: r => r.all (fun b => decide (b - a ≥ sep b)) && pairwiseSep sep r
 
-def c06 (P : Prms String) (o : Obs) : List String :=
+/-- `raw` lists, per row of the groups table, the number of components of the mixture selected for that group *before*
+the re-merge pass of `ncomp_from_gmm` (computed by the driver from the recorded mixture answers; `none` = group not
+examined or answers not recorded). The second clause of C06 speaks of groups "split into as many layers as the mixture
+model distinguishes (no sub-layers re-merged)": exactly the groups whose reported `ncomp` equals that raw count. (The
+`ncomp` column alone cannot tell: it is the count after re-merging — a monitor guarded by it only was refuted by proof,
+see Lemmas/SpecSoundC.lean.) -/
+def c06 (P : Prms String) (o : Obs) (raw : List (Option Nat)) : List String :=
   let gb := o.groups.map (·.base)
   fails (pairwiseSep (minSepOf P) gb) "C06.groups-min-sep" ++
   (if P.exclude ≠ [] then [] else
-    fails (o.groups.all fun g =>
+    fails ((o.groups.zip raw).all fun (g, rw) =>
       let ls := (((o.lids.zip o.gids).filter (·.2 == g.cid)).map (·.1)).eraseDups
-      match g.ncomp with
-      | some k =>
-        if k ≥ 2 ∧ ls.length == k.toNat then
+      match g.ncomp, rw with
+      | some k, some n0 =>
+        if k ≥ 2 ∧ ls.length == k.toNat ∧ n0 == k.toNat then
           let bases := (o.layers.filter fun r => ls.contains r.cid).map (·.base)
           pairwiseSep (fun _ => minSepOf P g.base) bases
         else true
-      | none => true) "C06.split-layers-min-sep")
+      | _, _ => true) "C06.split-layers-min-sep")
 
 def c07 (P : Prms String) (o : Obs) : List String :=
   match P.msa with
